@@ -102,9 +102,9 @@ MCInTrial(r) ==
              Eval(r, [comp |-> "cons", phase |-> "trial", xid |-> NextId, inbox |-> TRUE, ok |-> ok, changed |-> <<>>])
      \/ /\ ~stopped /\ ~needRead /\ inner[r].ls = 0
         /\ \E rs \in {"none", "LinearSolverError"} :
-             Lin(r, [op |-> "solve", raised |-> rs, finite |-> TRUE, phase |-> "trial"])
+             Lin(r, [op |-> "solve", raised |-> rs, finite |-> TRUE, resOK |-> TRUE, phase |-> "trial"])
      \/ /\ ~stopped /\ ~needRead /\ cfg[r].rcond /\ inner[r].k >= 1 /\ ~inner[r].rcf
-        /\ Lin(r, [op |-> "solve", raised |-> "LinearSolverError", finite |-> TRUE, phase |-> "rcond"])   \* a failed estimate is "no estimate"
+        /\ Lin(r, [op |-> "solve", raised |-> "LinearSolverError", finite |-> TRUE, resOK |-> TRUE, phase |-> "rcond"])   \* a failed estimate is "no estimate"
      \/ /\ ~stopped /\ ~needRead /\ inner[r].k < KMax(r)
         /\ NewtonStep(r, [k |-> inner[r].k, raised |-> "none"])
      \/ /\ ~stopped /\ needRead
